@@ -55,8 +55,8 @@ cparse(struct clkoff *table, FILE *file)
 		if (fgets(buf, 1024, file) == NULL)
 			break;
 
-		/* Empty line */
-		if (buf[0] == '\n')
+		/* Empty line, or only white space */
+		if (buf[strspn(buf, " \t\r\n")] == '\0')
 			continue;
 
 		int ret = sscanf(buf, "%" SCNd64 "%s %lf %lf %lf",
